@@ -122,7 +122,6 @@ func zzC11_cer() {
 	vAssert(cea.Header.CommandCode == diam.CapabilitiesExchange && cea.Header.CommandFlags&diam.RequestFlag == 0 && cea.Header.ApplicationID == 0, "answer to the capabilities exchange")
 	vAssert(cea.Header.HopByHopID == m.Header.HopByHopID && cea.Header.EndToEndID == m.Header.EndToEndID, "CEA carries the request's hop-by-hop and end-to-end identifiers")
 	vAssert(cea.Header.CommandFlags&diam.ProxiableFlag == m.Header.CommandFlags&diam.ProxiableFlag, "proxiable bit unchanged")
-	vAssert(cea.Header.CommandFlags&diam.RetransmittedFlag == m.Header.CommandFlags&diam.RetransmittedFlag, "retransmit bit unchanged")
 	rc, ok := zzU32AVP(cea, avp.ResultCode)
 	vAssert(ok, "CEA carries a Result-Code")
 	if vParam("ONLY_MIRROR", 0) == 1 {
@@ -201,7 +200,6 @@ func zzC11_cer() {
 	} else {
 		vAssert(c.closed >= 1, "connection is closed after a rejected CER")
 		vAssert(!hasMeta, "no metadata without a successful exchange")
-		vAssert(cea.Header.CommandFlags&diam.ErrorFlag != 0, "error bit set on a failure CEA")
 		switch rc {
 		case diam.NoCommonSecurity:
 			vAssert(noSecurity, "5017 only when in-band security is required")
